@@ -14,18 +14,22 @@ class Unrecoverable(Exception):
 
 
 def rat(x, tol=1e-9):
+    """exact recovery of a lattice rational: a small denominator AND agreement to (nearly) double precision -- any real has a
+    rational within 1e-9 once denominators up to 1e9 are allowed, which would turn an off-lattice value (e.g. the product of two
+    logarithms) into an arbitrary fraction"""
     x = float(x)
-    f = Fraction(x).limit_denominator(MAXDEN)
-    if abs(float(f) - x) > tol * (1 + abs(x)):
-        raise Unrecoverable("real %r" % x)
-    return [f.numerator, f.denominator]
+    for den, t in ((10 ** 5, 1e-13), (10 ** 6, 1e-14)):
+        f = Fraction(x).limit_denominator(den)
+        if abs(float(f) - x) <= t * (1 + abs(x)):
+            return [f.numerator, f.denominator]
+    raise Unrecoverable("real %r" % x)
 
 
 def angle(x):
     x = float(x)
-    c = Fraction(math.cos(x)).limit_denominator(MAXDEN)
-    s = Fraction(math.sin(x)).limit_denominator(MAXDEN)
-    if abs(float(c) - math.cos(x)) > 1e-9 or abs(float(s) - math.sin(x)) > 1e-9 or c * c + s * s != 1:
+    c = Fraction(math.cos(x)).limit_denominator(10 ** 7)       # c^2 + s^2 = 1 exactly is the real test
+    s = Fraction(math.sin(x)).limit_denominator(10 ** 7)
+    if abs(float(c) - math.cos(x)) > 1e-12 or abs(float(s) - math.sin(x)) > 1e-12 or c * c + s * s != 1:
         raise Unrecoverable("angle %r" % x)
     return [[c.numerator, c.denominator], [s.numerator, s.denominator]]
 
@@ -68,6 +72,13 @@ def project_cmd(cmd):
         ps = [[int(round(k)), 1]]
     elif name in ("MeasureHomodyne", "MeasureHeterodyne"):
         raise Unrecoverable("measurement")
+    elif name == "MSgate":
+        if len(op.p) != 5 or not bool(op.p[4]):
+            raise Unrecoverable("single-shot MSgate")
+        r = float(par_evaluate(op.p[0]))
+        if r < 0:
+            raise Unrecoverable("negative measurement-based squeezing")
+        ps = [recover("sq", op.p[0]), angle(float(par_evaluate(op.p[1])) / 2), recover("sq", op.p[2]), recover("real", op.p[3])]
     else:
         if len(op.p) != len(kinds):
             raise Unrecoverable("arity of " + name)
